@@ -159,13 +159,7 @@ func runC03(c *Ctx) {
 	c.obWriters("Conn.binarymime", "decided by each MAIL command", "(*Conn).handleMail")
 
 	R.Rule("R-reset-at-end", "E2 must-pass-through", "every transaction end passes through reset() (or Close after a backend panic) before the handler returns", 6)
-	if f := c.A.Func("(*Conn).handleData"); f != nil {
-		c.obFollow("354 then reset", f, c.direct("reply:354"), []string{lReset}, nil, nil)
-	}
-	if f := c.A.Func("(*Conn).handleBdat"); f != nil {
-		c.obFollow("552 then reset", f, c.direct("reply:552"), []string{lReset}, nil, nil)
-		c.obFollow("final/failed chunk reply then reset|Close", f, c.direct("reply:dyn"), []string{lReset, lClose}, nil, nil)
-	}
+	obMessageEndResets(c)
 	ruleAbandonResets(c)
 	if f := c.A.Func("(*Conn).handleStartTLS"); f != nil {
 		c.obFollow("TLS upgrade then reset", f, c.direct("st:Conn.conn"), []string{lReset}, nil, nil)
@@ -269,5 +263,17 @@ func ruleResetEffects(c *Ctx) {
 		c.obMustUnder("Session.Reset", f, []string{lSessReset}, aSessSet)
 		c.obMustUnder("abort pipe", f, []string{"pipe-abort"}, aPipeOpen)
 		c.obMustUnder("bdatPipe=nil", f, []string{"st:Conn.bdatPipe=nil"}, aPipeOpen)
+	}
+}
+
+// obMessageEndResets (C03 R-reset-at-end, C16 R-envelope-per-message): once a message has been taken (354 sent, final
+// or failed chunk answered) every path to the handler's return clears the envelope, in SMTP and LMTP mode alike.
+func obMessageEndResets(c *Ctx) {
+	if f := c.A.Func("(*Conn).handleData"); f != nil {
+		c.obFollow("354 then reset", f, c.direct("reply:354"), []string{lReset}, nil, nil)
+	}
+	if f := c.A.Func("(*Conn).handleBdat"); f != nil {
+		c.obFollow("552 then reset", f, c.direct("reply:552"), []string{lReset}, nil, nil)
+		c.obFollow("final/failed chunk reply then reset|Close", f, c.direct("reply:dyn"), []string{lReset, lClose}, nil, nil)
 	}
 }
